@@ -464,14 +464,29 @@ fn run_cloudconc(args: &Args) {
             let mut run = cloudconc::Conc::new(n, cleanup);
             lines.push(format!("CLIENTS {}", n));
             outs.push(String::new());
-            let mut g = cloudconc::ConcGen { n, acked: Vec::new(), nd: 0, cleanup };
+            let mut g = cloudconc::ConcGen { n, acked: Vec::new(), nd: 0, cleanup, cleaning: vec![false; n], snap_next: vec![None; n] };
             let mut feed = |l: String, run: &mut cloudconc::Conc, g: &mut cloudconc::ConcGen, lines: &mut Vec<String>, outs: &mut Vec<String>| {
+                if let Some(rest) = l.strip_prefix("BEGIN ") {
+                    let t: Vec<&str> = rest.split(' ').collect();
+                    if t.len() == 2 && t[1] == "CLEAN" {
+                        if let Ok(c) = t[0].parse::<usize>() {
+                            if c < g.cleaning.len() {
+                                g.cleaning[c] = true;
+                            }
+                        }
+                    }
+                }
                 let (nl, o) = run.exec(&l);
                 for e in nl.split(" :: ") {
                     if let Some(rest) = e.strip_prefix("ret ") {
                         let t: Vec<&str> = rest.split(' ').collect();
                         if t.len() >= 3 && t[1] == "ok" {
                             g.acked.push(t[2].to_string());
+                            if let Ok(c) = t[0].parse::<usize>() {
+                                if c < g.snap_next.len() {
+                                    g.snap_next[c] = Some(t[2].to_string());
+                                }
+                            }
                         }
                     }
                 }
